@@ -328,6 +328,55 @@ def r6_replace(res, facts):
         # vector-typed params: push_back after a search is fine; not decided here
     if n == 0:
         raise AnalysisBroken('no keyed store found in XalanTransformer (installExternalFunction expected)')
+    # an entry that can hold the setting in several forms (XalanParamHolder: an expression or a value; the consumer prefers one of them) must be overwritten as a whole:
+    # every setter that writes one field of the entry writes all of them
+    n_entry = 0
+    for k in facts.astidx:
+        f = facts.F.get(k)
+        if not f or f.get('cls') != 'xalanc_1_12::XalanTransformer':
+            continue
+        a = facts.ast(k)
+        if a is None or a.get('body') is None:
+            continue
+        written = collections.defaultdict(set)      # entry class -> fields written through a slot of a keyed member
+        slot_ids = {}
+        for x in walk(a['body']):
+            if x.get('k') == 'Decl':
+                for v in x.get('vars', []):
+                    ini = strip_casts(v['init']) if v.get('init') is not None else None
+                    if ini is not None and ini.get('k') == 'OpCall' and ini.get('op') == '[]' and (v.get('ty') or '').rstrip().endswith('&'):
+                        slot_ids[v['id']] = (v.get('ty') or '').replace('&', '').replace('const', '').strip()
+        for x in walk(a['body']):
+            tgt = None
+            if x.get('k') in ('Bin', 'OpCall') and x.get('op') == '=':
+                tgt = strip_casts(x['lhs'] if x['k'] == 'Bin' else x['args'][0])
+            elif x.get('k') == 'MCall' and x.get('n') in ('clear', 'assign', 'reset'):
+                tgt = strip_casts(x.get('obj'))
+            if tgt is None or tgt.get('k') != 'Member':
+                continue
+            base = strip_casts(tgt.get('obj'))
+            if base is None:
+                continue
+            cls = None
+            if base.get('k') == 'OpCall' and base.get('op') == '[]':
+                cls = (base.get('ty') or '').replace('const', '').strip()
+            elif base.get('k') == 'Ref' and base.get('id') in slot_ids:
+                cls = slot_ids[base['id']]
+            if cls:
+                written[cls].add(tgt['m'])
+        for cls, flds in written.items():
+            allf = {fl['n'] for fl in (facts.K.get(cls) or facts.K.get('xalanc_1_12::' + cls.split('::')[-1]) or {}).get('fields', [])}
+            if len(allf) < 2:
+                continue
+            n_entry += 1
+            site = '%s: entry of type %s' % (short(facts.name[k]), short(cls))
+            if allf <= flds:
+                r.ok(site, 'writes every form of the entry: %s' % sorted(flds))
+            else:
+                r.violation(site, 'the setter writes %s of the entry but leaves %s as an earlier call set it: the consumer may prefer the stale form (a parameter set as an expression and '
+                            'then as a value keeps the expression)' % (sorted(flds), sorted(allf - flds)), common.file_line(a))
+    if n_entry == 0:
+        raise AnalysisBroken('no setter of a multi-form entry found in XalanTransformer (setStylesheetParam expected)')
     return r
 
 
